@@ -78,7 +78,8 @@ def explore(tier, seed):
                     pool.append((q, ops[k2][1], variables))
         pool += [(INTROSPECTION, None, None), ("{ __typename ", None, None), ("{ nope }", None, None), (pool[0][0], "Unknown", None)]
         # refused documents with SEVERAL errors of one rule, and introspection under aliases of this schema's own
-        pool += [("{ nope1 nope2 }", None, None), ("{ __typename nope3 }", None, None), (f"{{ i{si}: __schema {{ queryType {{ name }} }} __typename }}", None, None),
+        pool += [("{ __typename @skip(if: true, if: false) }", None, None), ("query Q($u: Int, $u: Int) { __typename }", "Q", None),
+                 ("{ nope1 nope2 }", None, None), ("{ __typename nope3 }", None, None), (f"{{ i{si}: __schema {{ queryType {{ name }} }} __typename }}", None, None),
                  (f'{{ __typename\n  j{si}: __type(name: "Query") {{ name }} }}', None, None)]
         # an introspection field placed AFTER awaited resolvers of the same request
         late = []
